@@ -96,11 +96,11 @@ theorem copyToSelectedF_protects (c : UCfg) (sh : Shape) (sel nw : Item) :
             obtain ⟨rfl, _⟩ := h
             exact ⟨fun _ => rfl, copyToSelectedF_protects c sh sel nw xs r' b' hrec⟩
 
-theorem copyToAll_protects (sh : Shape) (nw : Item) : ∀ ex : List Item, Prot sh ex (copyToAll sh true ex nw).1
+theorem copyToAllF_protects (c : UCfg) (sh : Shape) (nw : Item) : ∀ ex : List Item, Prot sh ex (copyToAllF c sh true ex nw).1
   | [] => trivial
   | x :: xs => by
     refine ⟨fun hx => by simp [hx], ?_⟩
-    exact copyToAll_protects sh nw xs
+    exact copyToAllF_protects c sh nw xs
 
 /-- the delete phase: unwritable elements stay in place in the caller's array, and a delete that succeeded met no
     unwritable element -/
@@ -221,7 +221,7 @@ theorem tailF_protects (c : UCfg) (sh : Shape) {ex orig cur : List Item} {aliase
   | cons n0 rest =>
     simp only
     split
-    · have hc := copyToAll_protects sh n0 cur
+    · have hc := copyToAllF_protects c sh n0 cur
       refine ⟨?_, mem_of_phase sh hp ha hn hc⟩
       cases aliased with
       | true => have := ha rfl; subst this; simpa using Prot.trans sh hp hc
@@ -312,9 +312,9 @@ theorem copyToSelectedF_all_writable (c : UCfg) (sh : Shape) (remote : Bool) (se
         simp only [hall.1, Bool.not_true, Bool.false_and, Bool.false_eq_true, if_false, Outcome.ok.injEq, Prod.mk.injEq] at h
         exact h.2.symm
 
-theorem copyToAll_all_writable (sh : Shape) (remote : Bool) (ex : List Item) (nw : Item)
-    (hall : ex.all (writeAllowed sh) = true) : (copyToAll sh remote ex nw).2 = true := by
-  simp only [copyToAll, Bool.not_eq_true', Bool.and_eq_false_imp]
+theorem copyToAll_all_writable (c : UCfg) (sh : Shape) (remote : Bool) (ex : List Item) (nw : Item)
+    (hall : ex.all (writeAllowed sh) = true) : (copyToAllF c sh remote ex nw).2 = true := by
+  simp only [copyToAllF, Bool.not_eq_true', Bool.and_eq_false_imp]
   intro _
   rw [List.any_eq_false]
   intro x hx
@@ -404,7 +404,7 @@ theorem updateList_all_writable_accepts (sh : Shape) (ex nw : List Item) (fp fd 
       | cons n0 rest =>
         simp only
         split
-        · simp [copyToAll_all_writable sh true cur n0 hcur]
+        · simp [copyToAll_all_writable .asWritten sh true cur n0 hcur]
         · simp [mergeF_asWritten, merge_all_writable sh cur _ hcur]
     unfold partialPhaseF at h
     cases fp with
@@ -511,5 +511,24 @@ theorem mergeFixed_verdict_addressed (sh : Shape) (s1 s2 : List Item) :
       exact lookupLast_isSome_of_mem sh _ s2 b hb hk.symm
   simp only [mergeFixed, Bool.not_true, Bool.false_or]
   rw [← hblocked, ← hmissing]
+
+/-! ### the repaired in-place paths keep the flag -/
+
+theorem get_restoreFlag (sh : Shape) (f : Nat) (hf : sh.flag = some f) (saved x : Item) (hl : f < x.length) :
+    (restoreFlag sh saved x).get f = saved.get f := by
+  simp [restoreFlag, hf, Item.get, List.getElem?_set_self hl]
+
+theorem restoreFlag_length (sh : Shape) (saved x : Item) : (restoreFlag sh saved x).length = x.length := by
+  unfold restoreFlag; cases sh.flag <;> simp
+
+theorem copyNonNil_length (nw x : Item) : (copyNonNil nw x).length = x.length := by
+  unfold copyNonNil; split <;> simp
+
+/-- C04, clause 1b for the member with `inplaceAltersFlag` off: whatever a selector or identifier-less remote write
+    carries, the item it overlays keeps its flag -/
+theorem copyNonNilF_keeps_flag (c : UCfg) (hc : c.inplaceAltersFlag = false) (sh : Shape) (f : Nat)
+    (hf : sh.flag = some f) (nw x : Item) (hl : f < x.length) : (copyNonNilF c sh true nw x).get f = x.get f := by
+  simp only [copyNonNilF, keepsFlag, hc, Bool.not_false, Bool.and_self, if_true]
+  exact get_restoreFlag sh f hf x _ (by rw [copyNonNil_length]; exact hl)
 
 end Spine
